@@ -1,6 +1,7 @@
 import JominiModel.Model.TextDe
 import JominiModel.Spec.TextDoc
 import JominiModel.Proofs.TextDe
+import JominiModel.Proofs.TextDeStream
 /-
 C02 — Text deserialization returns the document's values on both parse paths.
 Only property theorems live here; helper lemmas are in `Proofs/TextDe*.lean`.
@@ -54,5 +55,50 @@ theorem C02_option_unknown (enc : Enc) :
   · intro de seen t' o r; simp [sStructVal]
 
 example : structFinish [([97], .opt .i64), ([98], .str)] 0 [(1, .str [120])] = .ok [([97], .none), ([98], .str [120])] := by rfl
+
+/- Full statement (growth): for every save-style document `d` — scalars, objects, arrays AND header
+values such as `rgb { 1 2 3 }` — every encoding and every root target type that requests the
+document's shape, `deStream enc ty (lexemes d) = valueOf enc ty d`.
+Proved below for documents without header values (`TextDoc.Node` has no header constructor yet; header
+values are covered by the correspondence runs and the implementation-side oracles only).  Everything
+else is at full strength: typed scalars, strings, enums, `Option`, `Property` with every operator,
+sequences, maps, structs with missing / duplicated / unknown fields where the unknown field's value is
+skipped at arbitrary nesting, error results included (the two sides agree on which error comes first). -/
+/-- The streaming deserializer, run on the reader tokens of a document, returns the document's value. -/
+theorem C02_stream_eq_spec_partial (enc : Enc) (ty : Ty) (d : Doc)
+    (hroot : Ty.isRoot ty = true) (hfit : Fits enc ty (.obj d)) :
+    deStream enc ty (lexemes d) = valueOf enc ty d :=
+  deStream_eq_valueOf enc ty d hroot hfit
+
+/-- the hypotheses are satisfiable by a document with a nested unknown field, a Property with an
+operator, a missing Option and a sequence:  `a > 12  zz = { q = { r } }  l = { x y }` -/
+example :
+    let d : Doc := [([97], .gt, .leaf ⟨[49, 50], false⟩),
+                    ([122, 122], .eq, .obj [([113], .eq, .arr [.leaf ⟨[114], false⟩])]),
+                    ([108], .eq, .arr [.leaf ⟨[120], false⟩, .leaf ⟨[121], true⟩])]
+    let ty : Ty := .st [([97], .prop .i64), ([108], .seq .str), ([111], .opt .bool)]
+    Ty.isRoot ty = true ∧ Fits .w1252 ty (.obj d) ∧
+    deStream .w1252 ty (lexemes d) =
+      .ok (.st [([97], .prop .gt (.int 12)), ([108], .seq [.str [120], .str [121]]), ([111], .none)]) := by
+  refine ⟨rfl, ?_, by rfl⟩
+  apply Fits.st
+  intro k o v hm i t hl
+  simp only [List.mem_cons, Prod.mk.injEq, List.not_mem_nil, or_false] at hm
+  rcases hm with ⟨rfl, rfl, rfl⟩ | ⟨rfl, rfl, rfl⟩ | ⟨rfl, rfl, rfl⟩
+  · have : t = .prop .i64 := by
+      have : lookupIdx (decode .w1252 [97]) [([97], Ty.prop .i64), ([108], .seq .str), ([111], .opt .bool)] 0 = some (0, .prop .i64) := by rfl
+      rw [this] at hl; simp at hl; exact hl.2.symm
+    subst this
+    exact Fits.prop (Fits.scalar rfl)
+  · have : lookupIdx (decode .w1252 [122, 122]) [([97], Ty.prop .i64), ([108], .seq .str), ([111], .opt .bool)] 0 = none := by rfl
+    rw [this] at hl; simp at hl
+  · have : t = .seq .str := by
+      have : lookupIdx (decode .w1252 [108]) [([97], Ty.prop .i64), ([108], .seq .str), ([111], .opt .bool)] 0 = some (1, .seq .str) := by rfl
+      rw [this] at hl; simp at hl; exact hl.2.symm
+    subst this
+    apply Fits.seq
+    intro v hv
+    simp only [List.mem_cons, List.not_mem_nil, or_false] at hv
+    rcases hv with rfl | rfl <;> exact Fits.scalar rfl
 
 end Jomini.Props.C02
